@@ -1,19 +1,21 @@
 #!/bin/sh
 # run seedtest for every finished mutant that has no result yet (parallel across properties)
-mkdir -p /tmp/mut/results
-for d in /tmp/mut/C*/MUTANTS; do
+mkdir -p ${MUT_ROOT:-/tmp/mut}/results
+for d in ${MUT_ROOT:-/tmp/mut}/C*/MUTANTS; do
   p=$(basename $(dirname $d))
   ( for m in $d/m*; do
       [ -f $m/patch.diff ] || continue
-      out=/tmp/mut/results/$p-$(basename $m).json
+      out=${MUT_ROOT:-/tmp/mut}/results/$p-$(basename $m).json
       [ -s $out ] && [ -z "$FORCE" ] && continue
-      python3 /verif/tools/seedtest.py $m $p > $out 2>/tmp/mut/results/$p-$(basename $m).err
+      python3 /verif/tools/seedtest.py $m $p > $out 2>${MUT_ROOT:-/tmp/mut}/results/$p-$(basename $m).err
     done ) &
 done
 wait
+export MUT_ROOT=${MUT_ROOT:-/tmp/mut}
 python3 - <<'PY'
 import json,glob
-for f in sorted(glob.glob('/tmp/mut/results/*.json')):
+import os
+for f in sorted(glob.glob(os.environ.get('MUT_ROOT','/tmp/mut')+'/results/*.json')):
     try: o=json.load(open(f))
     except Exception as e: print(f,'ERR',e); continue
     c=list(o['checks'].values())[0] if o['checks'] else {}
